@@ -57,7 +57,16 @@ class TypeAliasUnwrappingProvider(LocatedRequestDelegatingProvider):
         if not isinstance(norm, NormTypeAlias):
             raise CannotProvide
 
-        return norm.value[tuple(arg.source for arg in norm.args)] if norm.args else norm.value
+        if not norm.args:
+            return norm.value
+
+        value_params = getattr(norm.value, "__parameters__", ())
+        if len(norm.type_params) != len(norm.args) or not all(isinstance(param, TypeVar) for param in value_params):
+            return norm.value[tuple(arg.source for arg in norm.args)]
+        # parameters of the value are ordered by their first appearance there (``type Swap[A, B] = dict[B, A]``),
+        # so the arguments must be matched with type variables of the alias
+        type_var_to_arg = {type_var.source: arg.source for type_var, arg in zip(norm.type_params, norm.args)}
+        return norm.value[tuple(type_var_to_arg[param] for param in value_params)]
 
 
 class ForwardRefEvaluatingProvider(LocatedRequestDelegatingProvider):
